@@ -10,7 +10,9 @@ package main
 import (
 	"encoding/json"
 	"fmt"
+	"os"
 	"sort"
+	"strings"
 	"sync"
 	"time"
 
@@ -185,7 +187,13 @@ func main() {
 			run.Sample(s)
 		}
 		for k, n := range o.Counts {
-			counts[k] += n
+			switch {
+			case strings.HasPrefix(k, "ms/") && os.Getenv("C17_DEBUG") == "":
+			case strings.HasPrefix(k, "size/"):
+				counts[k] = max(counts[k], n)
+			default:
+				counts[k] += n
+			}
 		}
 		if len(o.Vios) > 0 {
 			confirm[i] = o.Vios
